@@ -364,6 +364,29 @@ def one_file(stmts):
     return "".join(s + ";\n" for s in stmts)
 
 
+DELIM_DIRECTIVE = "-- atlas:delimiter \\n\\n\\n\n"
+
+
+def delim_file(stmts, lo, hi):
+    """One file using the '-- atlas:delimiter \\n\\n\\n' directive: statements are separated by two empty lines and
+    stmts[lo:hi] form ONE statement of several SQL commands (the driver executes them one after the other; when a
+    later command fails the earlier ones have taken effect and the statement is reported as failed)."""
+    units = list(stmts[:lo]) + [";\n".join(stmts[lo:hi])] + list(stmts[hi:])
+    return DELIM_DIRECTIVE + "\n\n\n".join(u + ";" for u in units) + "\n"
+
+
+# A data statement that keeps SQLite busy for a while (generated rows, recursive CTE). n rows.
+def slow_stmts(x, n):
+    return ["CREATE TABLE zz_slow%s (id integer primary key, pad text)" % x,
+            "INSERT INTO zz_slow%s (id, pad) WITH RECURSIVE c(i) AS (SELECT 1 UNION ALL SELECT i + 1 FROM c WHERE i < %d) "
+            "SELECT i, 'row ' || i || ' of the slow data migration' FROM c" % (x, n)]
+
+
+def dur_s(d):
+    m = re.match(r"^(\d+)(ms|s)$", d)
+    return int(m.group(1)) / (1000.0 if m.group(2) == "ms" else 1.0)
+
+
 def pos_class(fail, n):
     if not fail:
         return "none"
@@ -490,8 +513,10 @@ def empty_expect(cmd, empty):
     return "refuse"
 
 
-def argv(cmd, src, dev_url, target, late=None):
+def argv(cmd, src, dev_url, target, late=None, lock_timeout=None):
     a = _argv(cmd, src, dev_url, target)
+    if lock_timeout:
+        a += ["--lock-timeout", lock_timeout]
     if late == "exclude-glob":
         a += ["--exclude", "[bad"]
     elif late == "format-template":
